@@ -115,6 +115,8 @@ type Day struct {
 	// Head, when set, is the heading text to render instead of Date in the log's layout
 	// (layouts with a time of day or a zone offset)
 	Head string
+	// NoColon: the heading line is written without the (optional) colon
+	NoColon bool
 }
 
 // Log is an ordered list of days (file order; dates may repeat and be unsorted).
@@ -145,7 +147,9 @@ func EInner(r *rand.Rand) Num {
 func GNum(r *rand.Rand) Num {
 	switch r.Intn(12) {
 	case 0:
-		return N([]string{"0.1", "0.2", "0.3", "2.675", "1.005", "0.125", "0.0005", "0.0025", "0.005", "0.015", "1e-3", "3.333", "123456.789", "123456.7895", "0", "1", "-0.1", "1e2", "2.5e-1", "-1E1", "1e+2", "0.045", "0.995", "9.995", "99.995", "010", "0755", "-012", "007.5", "1234567890.12", "98765432101234.5", "1e15", "4503599627370497", "-2147483648.5", "65536.005", "-1e-20"}[r.Intn(36)])
+		return N([]string{"0.1", "0.2", "0.3", "2.675", "1.005", "0.125", "0.0005", "0.0025", "0.005", "0.015", "1e-3", "3.333", "123456.789", "123456.7895", "0", "1", "-0.1", "1e2", "2.5e-1", "-1E1", "1e+2", "0.045", "0.995", "9.995", "99.995", "010", "0755", "-012", "007.5", "1234567890.12", "98765432101234.5", "1e15", "4503599627370497", "-2147483648.5", "65536.005", "-1e-20",
+			// plain integers around the limits of the machine integer types (a quantity is a decimal number, not an int)
+			"9300000000000000000", "9223372036854775807", "9223372036854775808", "18446744073709551615", "18446744073709551616", "4294967296", "2147483648", "-9223372036854775809"}[r.Intn(44)])
 	case 1:
 		return N(fmt.Sprintf("%d", r.Intn(2000)-300))
 	case 2:
@@ -183,7 +187,7 @@ var scripts = [][]rune{
 // oddRunes look like blanks or like nothing but are ordinary data for the parser: no-break space,
 // zero-width space, soft hyphen, combining acute accent, ideographic space. They are only used
 // inside names (the ends of notes are trimmed with Unicode rules by design).
-var oddRunes = []rune("\u00a0\u200b\u00ad\u0301\u3000\ufeff")
+var oddRunes = []rune("\u00a0\u200b\u00ad\u0301\u3000\ufeff\u2026")
 
 // NameOpts selects the alphabet of generated names.
 type NameOpts struct {
@@ -201,6 +205,8 @@ type NameOpts struct {
 	// truncated multi-byte rune, a surrogate half); Names then also adds siblings that differ only in the
 	// invalid byte, or that have a rune above U+FFFD where the sibling has the invalid byte.
 	Invalid bool
+	// EdgeBlanks: one name in eight begins or ends with a Unicode blank that is not in the parser's trim set
+	EdgeBlanks bool
 }
 
 var invalidSeqs = []string{"\xe9", "\xe8", "\xff", "\xf0", "\xc3", "\x80", "\xbd", "\xed\xa0\x80", "\xf4\x90\x80\x80", "\xe2\x82"}
@@ -280,6 +286,16 @@ func Name(r *rand.Rand, o NameOpts) string {
 			rs = append(rs, letterOrDigit(r, o))
 		}
 	}
+	if o.EdgeBlanks && r.Intn(8) == 0 {
+		// a blank the parser does not know as one (no-break space from a web page, ideographic space from an input
+		// method, thin space) at the very beginning or end: part of the name, for the parser
+		b := []rune("\u00a0\u3000\u2009\u202f\u0085")[r.Intn(5)]
+		if r.Intn(2) == 0 {
+			rs = append([]rune{b}, rs...)
+		} else {
+			rs = append(rs, b)
+		}
+	}
 	s := string(rs)
 	if o.Slash {
 		// segments must not begin or end with a blank
@@ -290,7 +306,13 @@ func Name(r *rand.Rand, o NameOpts) string {
 	return s
 }
 
-var specialNames = []string{"null", "Null", "true", "false", "yes", "no", "on", "off", "~", "nan", "inf", "NaN", "1e3", "0x10", "12", "0.5", ".5", "1_000", "...", ".", "..", "%YAML 1.2", "!!str", "&anchor", "*alias", "<<", "@at", "`tick`", "|", ">", "[a]", "{a}", "a, b", "a=b", "$HOME", "${x}", "%s", "%d", "{{.}}", "\\n", "C:\\food", "<b>", "&amp;", "'", "''", "a'b", "(", ")", "*", "?", "+1", "1/2", "1:2"}
+var specialNames = []string{"null", "Null", "true", "false", "yes", "no", "on", "off", "~", "nan", "inf", "NaN", "1e3", "0x10", "12", "0.5", ".5", "1_000", "...", ".", "..", "%YAML 1.2", "!!str", "&anchor", "*alias", "<<", "@at", "`tick`", "|", ">", "[a]", "{a}", "a, b", "a=b", "$HOME", "${x}", "%s", "%d", "{{.}}", "\\n", "C:\\food", "<b>", "&amp;", "'", "''", "a'b", "(", ")", "*", "?", "+1", "1/2", "1:2",
+	// a separator-and-comment-character sequence inside a name (only the last colon of a line separates)
+	"tea: #2 blend", "a: #", "mix: # x: y", "b:#c", "soup: ; thick"}
+
+// SpecialName draws one of the names that a YAML reader, a shell, a number parser or a careless line splitter
+// would take for something else.
+func SpecialName(r *rand.Rand) string { return specialNames[r.Intn(len(specialNames))] }
 
 // Names returns n distinct names.
 func Names(r *rand.Rand, n int, o NameOpts) []string {
@@ -678,7 +700,7 @@ func (s *Style) filler(sb *strings.Builder) {
 		return
 	}
 	for s.coin(6) {
-		switch s.R.Intn(4) {
+		switch s.R.Intn(5) {
 		case 0:
 			sb.WriteString(s.eol())
 		case 1:
@@ -687,6 +709,9 @@ func (s *Style) filler(sb *strings.Builder) {
 			sb.WriteString(s.cc() + " a comment: 12" + s.eol())
 		case 3:
 			sb.WriteString(s.cc() + s.eol())
+		case 4:
+			// a heading that was commented out, its former lines left in place: a comment like any other
+			sb.WriteString(s.cc() + []string{"2021/01/02:", "lunch:", " 2021/01/03:", "old/recipe:"}[s.R.Intn(4)] + s.eol())
 		}
 	}
 }
@@ -759,9 +784,23 @@ func (s *Style) finish(sb *strings.Builder) string {
 	return out
 }
 
+// leadNote: an indented note line above the first heading of a file (a remark left by an export tool): it belongs
+// to no record and is not data; the records below it are what they are without it.
+func (s *Style) leadNote(sb *strings.Builder) {
+	if s == nil || !s.Comments || s.R == nil || !s.coin(8) {
+		return
+	}
+	ind := s.indent()
+	if s.Dashes && s.coin(4) {
+		ind += "- "
+	}
+	sb.WriteString(ind + s.cc() + []string{" exported from the kitchen spreadsheet", "", " source: an app", " x: 1"}[s.R.Intn(4)] + s.eol())
+}
+
 // RenderBook renders a book.
 func RenderBook(b Book, s *Style) string {
 	var sb strings.Builder
+	s.leadNote(&sb)
 	for _, rec := range b {
 		s.record(&sb, rec.Name, rec.Notes, rec.Ents)
 	}
@@ -772,12 +811,28 @@ func RenderBook(b Book, s *Style) string {
 // RenderLog renders a log with the given date layout.
 func RenderLog(l Log, layout string, s *Style) string {
 	var sb strings.Builder
+	s.leadNote(&sb)
 	for _, d := range l {
 		head := d.Date.Format(layout)
 		if d.Head != "" {
 			head = d.Head
 		}
+		start := sb.Len()
 		s.record(&sb, head, d.Notes, d.Ents)
+		if d.NoColon {
+			// the colon after a heading is optional for the parser: drop the one that follows this heading
+			text := sb.String()
+			if k := strings.Index(text[start:], head); k >= 0 {
+				at := start + k + len(head)
+				if at < len(text) && text[at] == '"' {
+					at++
+				}
+				if at < len(text) && text[at] == ':' {
+					sb.Reset()
+					sb.WriteString(text[:at] + text[at+1:])
+				}
+			}
+		}
 	}
 	s.filler(&sb)
 	return s.finish(&sb)
